@@ -222,6 +222,12 @@ def std_err(ctx: Ctx):
     ctx.require_min("block formula obligations", 16)
 
 
+def _helpers_inlined(m) -> bool:
+    """stop predicate: everything stays symbolic except PRIVATE PLAIN METHODS (`self._margin_of_error(std_err)`), whose body
+    stands in for the call"""
+    return not (m.kind in ("method", "staticmethod", "classmethod") and m.name.startswith("_") and not m.name.startswith("_assemble"))
+
+
 def public(ctx: Ctx):
     mod = ctx.repo.module("cubepart.py")
     z = mod.consts.get("Z_975")
@@ -231,7 +237,7 @@ def public(ctx: Ctx):
         e = expand(ctx.repo, sl, f"{d}_std_dev", stop=lambda m: True)
         v, cnf, snf, _ = equal(e, f"sqrt(self.{d}_proportion_variances)")
         ctx.ob("std-dev", f"cubepart.py::_Slice.{d}_std_dev", cnf, snf, v, "standard deviation = sqrt(variance) (a fresh array)")
-        e = expand(ctx.repo, sl, f"{d}_proportions_moe", stop=lambda m: True)
+        e = expand(ctx.repo, sl, f"{d}_proportions_moe", stop=_helpers_inlined)
         v, cnf, snf, _ = equal(e, f"Z_975 * self.{d}_std_err")
         ctx.ob("moe", f"cubepart.py::_Slice.{d}_proportions_moe", cnf, snf, v)
         e = expand(ctx.repo, sl, f"{d}_std_err", stop=lambda m: True)
@@ -273,7 +279,7 @@ def stripe(ctx: Ctx):
         v, cnf, snf, _ = equal(e, f"sqrt({M}.table_proportion_variances.{part})")
         ctx.ob("stripe-stddev", f"{SM}::_TableProportionStddevs.{part}", cnf, snf, v)
     st = ctx.repo.cls("cubepart.py", "_Strand")
-    e = expand(ctx.repo, st, "table_proportion_moes", stop=lambda m: True)
+    e = expand(ctx.repo, st, "table_proportion_moes", stop=_helpers_inlined)
     v, cnf, snf, _ = equal(e, "Z_975 * self.table_proportion_stderrs")
     ctx.ob("moe", "cubepart.py::_Strand.table_proportion_moes", cnf, snf, v)
     for prop in ("table_proportion_stddevs", "table_proportion_stderrs"):
